@@ -26,6 +26,62 @@ P_ATOM = "command.parameters|length > 0"
 C_ATOM = "command.channels|length > 0"
 
 
+def renderer_frames(S):
+    """literal frames of every function of the TypeScript-type renderers (TypeVisitor defaults, TypeScriptVisitor, and the part of ZodVisitor that
+    visit_type_for_interface reaches): -> [(fn qname, first literal piece, last literal piece)] of each format!/literal it builds text with"""
+    from srclib import walk_block as wb
+    fns = [f for f in S.fns if f.body is not None and f.owner in ("TypeVisitor", "TypeScriptVisitor")]
+    z = {f.name: f for f in S.fns if f.body is not None and f.owner == "ZodVisitor"}
+    live = set()
+    work = ["visit_type_for_interface"]
+    while work:
+        n = work.pop()
+        if n in live or n not in z or n == "visit_type":
+            continue
+        live.add(n)
+        for e in wb(z[n].body):
+            if e.get("k") == "mcall" and expr_text(e["recv"]) == "self" and e["method"] in z:
+                work.append(e["method"])
+    fns += [z[n] for n in sorted(live)]
+    out = []
+    for f in fns:
+        if "String" not in (f.sig.get("ret") or ""):
+            continue
+        for e in wb(f.body):
+            if e.get("k") == "macro" and e["name"] == "format" and e.get("args") and lit_str(e["args"][0]) is not None:
+                pieces = re.split(r"\{[^{}]*\}", lit_str(e["args"][0]))
+                out.append((f.qname, pieces[0], pieces[-1]))
+    return out
+
+
+def check_frames_known_to_qualifier(S, rule):
+    """every bracketing frame a TypeScript-type renderer emits is one add_types_prefix has a branch for; shared by C02-D2 and C01-D3"""
+    ap = S.fn(None, "add_types_prefix")
+    r2 = rule
+    if ap is not None:
+        known = set()
+        for e in walk_block(ap.body):
+            if e.get("k") == "mcall" and e["method"] in ("starts_with", "ends_with", "strip_prefix", "strip_suffix") and e["args"]:
+                v_ = lit_text(e["args"][0])
+                if v_ is not None:
+                    known.add((e["method"] in ("starts_with", "strip_prefix"), v_))
+        for (qn, first, last) in renderer_frames(S):
+            ftok, ltok = first.lstrip(), last.rstrip()
+            if (not ftok or re.fullmatch(r"[\w ]*", ftok)) and (not ltok.strip() or re.fullmatch(r"[\w ]*", ltok.strip())):
+                continue                      # no delimiter at all: a leaf
+            if ftok and not re.fullmatch(r"[\w ]*", ftok):
+                # the text begins with a delimiter: the qualifier must recognise the frame by that beginning (it looks at the start of the text first;
+                # a frame it only knows by its ending — `X[]`, `X | null` — is cut there and the rest is treated as a name)
+                okf = any(is_p and ftok.startswith(k_) for (is_p, k_) in known)
+            else:
+                okf = any((not is_p) and last.endswith(k_) for (is_p, k_) in known)
+            if okf:
+                r2.ok("%s frame %r..%r is known to add_types_prefix" % (qn, first, last))
+            else:
+                r2.bad(V(r2.id, qn, "frame-unknown-to-qualifier:%s..%s" % (first.strip(), last.strip()),
+                         "%s emits the frame `%s…%s`, for which add_types_prefix has no branch: in commands.ts/events.ts the text is prefixed as if it were a name" % (qn, first, last)))
+
+
 def guard_truth(conds, decl=False):
     """set of (P, C) assignments under which the path's conditions hold.  Atoms that are not over the two lengths are unknown:
     a reference under an unknown guard may happen (all combinations), a declaration under one may not (none)."""
@@ -256,6 +312,9 @@ def check(ctx):
                     r2.bad(V(r2.id, name, "qualified-inside-types:%s" % h, "`{{ %s }}` is namespace-qualified inside the types module itself, where `types` is not defined" % h))
                 else:
                     r2.ok("%s: {{ %s }} %s" % (name, h, "qualified" if q else "unqualified (types module)"))
+    # sibling agreement: every bracketing frame a TypeScript-type renderer can emit is one the qualifier has a branch for.  A renderer that starts
+    # emitting a new frame (e.g. `(T | null)[]`) while add_types_prefix still only knows `X[]`, `X | null`, `Record<..>`, `[..]` yields `types.(T | null)[]`
+    check_frames_known_to_qualifier(S, r2)
     r2.require_floor(12, "qualification branches and type holes")
     rules.append(r2)
 
@@ -324,8 +383,9 @@ def check(ctx):
     from c07 import check_closure_before_insert
     check_closure_before_insert(P, r4)
     # a serde type the tool fails to recognise is referenced but never declared (rule shared with C07-D5)
-    from c07 import check_serde_filter
+    from c07 import check_serde_filter, check_builtin_table
     check_serde_filter(S, P, r4)
+    check_builtin_table(S, r4)
     for v in r4.violations:
         v.rule = r4.id
     r4.require_floor(2, "insertions into the declared set")
